@@ -485,6 +485,16 @@ def run_reuse(rng, drv, profile, tid):
                     do(ev0("Drop", c=alt))
                 else:
                     cmd(c, type="release", nameplate=rng.choice([ABSENT, name]))
+                if rng.random() < 0.35:
+                    # the side that released comes back for the same nameplate (refused: reclaimed), and
+                    # then tries another claim on that connection (refused: one claim per connection)
+                    fresh(alt, app, pair[k])
+                    cmd(alt, type="claim", nameplate=name)
+                    if rng.random() < 0.5:
+                        cmd(alt, type="claim", nameplate=rng.choice(p["names"]))
+                    if rng.random() < 0.5:
+                        cmd(alt, type="release", nameplate=rng.choice([ABSENT, name]))
+                    do(ev0("Drop", c=alt))
             if rng.random() < 0.15:
                 tick()
         # --- leave
